@@ -960,7 +960,7 @@ impl<'a> Dec<'a> {
         let mut windows = Vec::new();
         let mut opt = Vec::new();
         let mut removed = Vec::new();
-        for e in &entries {
+        for (ei, e) in entries.iter().enumerate() {
             match e {
                 HEntry::Size(s) => {
                     let st = self.pos;
@@ -972,7 +972,7 @@ impl<'a> Dec<'a> {
                     windows.push((self.pos, self.pos));
                 }
                 HEntry::Removed(n) => {
-                    removed.push(n.clone());
+                    removed.push((ei, n.clone()));
                     windows.push((self.pos, self.pos));
                 }
                 HEntry::Unknown => windows.push((self.pos, self.pos)),
@@ -1019,7 +1019,9 @@ impl<'a> Dec<'a> {
                 out.push(d.clone());
                 continue;
             }
-            if h.removed.iter().any(|n| n == f.name) {
+            // a removal concerns the field as the reader knows it only if it came after the step that added that field
+            // (a name may be removed and added again later: the new field lives in the chunk of its own step)
+            if h.removed.iter().any(|(at, n)| n == f.name && *at > f.chunk) {
                 if f.declared_opt {
                     out.push(Val::None);
                     continue;
@@ -1092,7 +1094,7 @@ enum HEntry {
 struct Header {
     windows: Vec<(usize, usize)>,
     opt: Vec<(u8, u8)>,
-    removed: Vec<String>,
+    removed: Vec<(usize, String)>,
     after: usize,
 }
 
